@@ -6,6 +6,7 @@
 package cli
 
 import (
+	"unicode/utf8"
 	"bytes"
 	"encoding/json"
 	"fmt"
@@ -62,6 +63,7 @@ func fileSets() map[string][]fileSpec {
 	return map[string][]fileSpec{
 		"crowd":           crowd,
 		"licensed":        {{"LICENSE", "Some project\n\n" + mit}},
+		"latin1":          {{"LICENSE", "Copyright \xa9 2020 Foo GmbH, M\xfcnchen\n\n" + mit + "\nGr\xfc\xdfe\n"}},
 		"unlicensed":      {{"README", "just words, nothing else\nsecond line\n"}},
 		"nested":          {{"a/b/LICENSE", mit}, {"a/c/NOTES", "plain text\n"}, {"a/b/d/COPYING", bsd}},
 		"no-trailing-nl":  {{"LICENSE", strings.TrimRight(mit, "\n")}},
@@ -134,7 +136,7 @@ func c19CLI(c *vrep.Ctx) {
 	}
 	sort.Strings(names)
 	if !c.Thorough() {
-		names = []string{"licensed", "unlicensed", "nested", "crlf", "long-line-first", "header-only", "copyright-only", "no-trailing-nl", "identical-twins", "crowd"}
+		names = []string{"licensed", "unlicensed", "nested", "crlf", "long-line-first", "header-only", "copyright-only", "no-trailing-nl", "identical-twins", "crowd", "latin1"}
 	}
 	taskMenu := []string{"1", "2", "16", "default"}
 	c.R.Rule = fmt.Sprintf("the real identify_license binary built from the current tree, over %d file sets (licensed, unlicensed, nested directories, no trailing newline, CRLF, a 70 000-character line, empty file, header-only, copyright-only, two licenses in one file, many files, 1100 files) x {-headers} x {plain, -json -include_text} x -tasks %v: stdout lines (as a multiset), JSON Text (= lines StartLine..EndLine of the file) and exit status compared with in-process DefaultClassifier().Match on the file bytes; quick tier samples the flag combinations round-robin, thorough runs all; non-trivial = runs that reported at least one line", len(names), taskMenu)
@@ -159,6 +161,7 @@ func c19CLI(c *vrep.Ctx) {
 			// two flag combinations per file set, rotating through the menu
 			k := r.Choose(2, "flags")
 			cb = combos[(si*5+k*7)%len(combos)]
+			cb.json = k == 1 // every file set once plain, once with -json -include_text
 		}
 		set := sets[names[si]]
 		root := filepath.Join(tmp, fmt.Sprintf("run-%s-%v-%v-%s", names[si], cb.headers, cb.json, cb.tasks))
@@ -211,6 +214,7 @@ func c19CLI(c *vrep.Ctx) {
 		sort.Strings(got)
 		msg := ""
 		crlfOnly, realDiff := false, false
+		invalidOnly := false
 		switch {
 		case strings.Join(got, "\n") != strings.Join(want, "\n"):
 			msg = fmt.Sprintf("stdout %q, library says %q (stderr tail: %s)", got, want, tailOf(stderr.String()))
@@ -257,14 +261,18 @@ func c19CLI(c *vrep.Ctx) {
 					// known deviation class: the ONLY difference is the carriage return dropped from CRLF line ends
 					if strings.ReplaceAll(strings.Join(w, "\x00"), "\r\n", "\n") == strings.Join(g, "\x00") && !realDiff {
 						crlfOnly = true
+					} else if strings.ToValidUTF8(strings.Join(w, "\x00"), "\ufffd") != strings.Join(w, "\x00") && utf8Replaced(strings.Join(w, "\x00")) == strings.Join(g, "\x00") && !realDiff {
+						// known deviation class: the file is not valid UTF-8 and the ONLY difference is that every
+						// invalid byte arrives as U+FFFD (a JSON string cannot carry it)
+						invalidOnly = true
 					} else {
-						crlfOnly, realDiff = false, true
+						crlfOnly, invalidOnly, realDiff = false, false, true
 					}
 					msg = fmt.Sprintf("JSON classifications of %s: %.300q, expected (Text = lines StartLine..EndLine of the file) %.300q", filepath.Base(p), g, w)
 				}
 			}
 		}
-		r.Note = map[string]interface{}{"id": fmt.Sprintf("%s headers=%v json=%v tasks=%s", names[si], cb.headers, cb.json, cb.tasks), "msg": msg, "n": len(want), "set": names[si], "json": cb.json, "crlfOnly": crlfOnly}
+		r.Note = map[string]interface{}{"id": fmt.Sprintf("%s headers=%v json=%v tasks=%s", names[si], cb.headers, cb.json, cb.tasks), "msg": msg, "n": len(want), "set": names[si], "json": cb.json, "crlfOnly": crlfOnly, "invalidOnly": invalidOnly}
 	}
 	c.Run(c.Explorer(0), body, func(r *vx.Run) {
 		id := r.Note["id"].(string)
@@ -276,6 +284,9 @@ func c19CLI(c *vrep.Ctx) {
 			key := "c19_cli:" + strings.ReplaceAll(id, " ", "_")
 			if r.Note["crlfOnly"].(bool) {
 				key = "c19_cli:class:crlf-text"
+			}
+			if r.Note["invalidOnly"].(bool) {
+				key = "c19_cli:class:invalid-utf8-text"
 			}
 			c.Violate(key, id+": "+m, r, m)
 		} else {
@@ -342,4 +353,21 @@ func c12Default(c *vrep.Ctx) {
 			c.Violate("c12_default:"+r.Note["f"].(string), r.Note["f"].(string)+": "+m, r, m)
 		}
 	})
+}
+
+
+// utf8Replaced replaces every byte that is not part of a valid UTF-8 sequence by U+FFFD, one
+// replacement per byte (what encoding/json does when it marshals a string).
+func utf8Replaced(s string) string {
+	var sb strings.Builder
+	for i := 0; i < len(s); {
+		r, size := utf8.DecodeRuneInString(s[i:])
+		if r == utf8.RuneError && size == 1 {
+			sb.WriteString("\ufffd")
+		} else {
+			sb.WriteString(s[i : i+size])
+		}
+		i += size
+	}
+	return sb.String()
 }
